@@ -462,7 +462,7 @@ package tree
 //@ fn Tree.URL
 //@   requires treeOK(tree) && allSafe() && lockFree(tree) && buf != nil
 //@   modifies strings.Builder.text: buf.Builder
-//@   ensures [C10] strict-live: result == nil ==> callresult("tree.Tree.Find", 1, 0) != nil
+//@   ensures [C10] strict-live: result == nil ==> callresult("tree.Tree.Find", 1, 0) != nil && len(callresult("tree.Tree.Find", 1, 0).handlers) > 0
 //@   ensures [C06] released: lockFree(tree)
 //@   inv 1 [C06,C05] walk: curr != nil && allocated(curr) && curr.root == tree && ofTree(nodes, tree)
 //@   inv 1 frame: unchanged("strings.Builder.text") && tree.locker == old(tree.locker)
